@@ -7,7 +7,7 @@ executed application action is legal (Reactive-Streams-legal application, protoc
 import signal
 
 from .world import World
-from . import vloop
+from . import vloop, wire
 
 
 class Hang(Exception):
@@ -47,7 +47,7 @@ class Exec:
             if st[0] in ('start', 'finish', 'pump', 'settle', 'deliver', 'advance', 'snapshot', 'cut', 'inject', 'gate', 'gate_open',
                          'gate_close', 'deliver_nosettle'):
                 raise
-            self.w.rec.log('-', 'app_call_raised', kind=type(ex).__name__)
+            self.w.rec.log('-', 'app_call_raised', kind=type(ex).__name__, iid=self.w.last_iid or 0)
             if st[0] in ('rr', 'fnf', 'push', 'stream', 'channel', 'probe', 'stream_raising_sub') and len(self.refs) == n_refs:
                 self.refs.append(self.w.last_iid if self.w.last_iid is not None else -1)
             self.w.settle()
@@ -58,6 +58,29 @@ class Exec:
         a = st[1:]
         if op == 'start':
             w.start()
+        elif op == 'start_noconnect':
+            w.start(connect=False)
+        elif op == 'connect':
+            w.rec.log('c', 'app_connect', pid=getattr(w, 'setup_pid', 0))
+            w._connect_task = w.loop.create_task(w.eps['c'].connect())
+        elif op == 'step':
+            for _ in range(a[0]):
+                w.loop._one()
+        elif op == 'silence':
+            w.silent = True
+        elif op == 'peer_keepalive':
+            pid, p = w.payloads.make(a[0], 0)
+            body = wire.encode('KEEPALIVE', flags=wire.F_RESPOND if a[1] else 0, extra=(12345).to_bytes(8, 'big'), d=bytes(p.data or b''))
+            if not w.peer_send(body, 'c'):
+                return self._skip()
+            w.settle()
+        elif op == 'peer_setup':
+            w.peer_send(self._setup_body(a[0], a[1]), 's')
+            w.settle()
+        elif op == 'peer_request':
+            pid, p = w.payloads.make(5, 0)
+            w.peer_send(wire.encode('REQUEST_RESPONSE', sid=a[0], d=bytes(p.data)), 's')
+            w.settle()
         elif op == 'rr':
             self.refs.append(w.request_response(a[0], tuple(a[1]), a[2] if len(a) > 2 else None))
         elif op == 'fnf':
@@ -177,6 +200,27 @@ class Exec:
 
     def _skip(self):
         self.skipped += 1
+
+    def _setup_body(self, variant, r):
+        w = self.w
+        flags = 0
+        token = None
+        md = None
+        d = b''
+        mm, dm = b'application/json', b'application/json'
+        if variant == 'resume_flag':
+            flags |= wire.F_RESUME
+            token = b'tok%d' % (r % 100)
+        elif variant in ('lease_no_publisher', 'lease_with_publisher'):
+            flags |= wire.F_LEASE
+        elif variant == 'payload':
+            pid, p = w.payloads.make(9, 4)
+            md, d = bytes(p.metadata), bytes(p.data)
+        elif variant == 'mimes':
+            mm, dm = b'message/x.rsocket.composite-metadata.v0', b'text/plain'
+        if variant == 'resume_frame':
+            return wire.encode('RESUME', extra=b'\x00\x01\x00\x00' + b'\x00\x03' + b'tok' + b'\x00' * 16)
+        return wire.encode('SETUP', flags=flags, extra=wire.setup_extra(500 + r % 1000, 10000 + r % 777, mm, dm, token=token), md=md, d=d)
 
     def _inject(self, dst, cls, p):
         """hostile peer: put one junk frame (class cls) on the link towards dst, at a frame boundary"""
